@@ -124,6 +124,8 @@ func main() {
 		})
 	}
 
+	chainFacts(repo, out)
+
 	// 5. C modules
 	cx := parseC(dir, cFiles, out, goCB, out.Facts["luaCheckView"] == "nestedView")
 	cx.trivial = map[string]bool{}
@@ -236,7 +238,7 @@ func emitTLA(o *Output) string {
 	sb.WriteString("\\* GENERATED by /verif/tools/vmguards from " + o.Repo + "/contract -- do not edit.\n")
 	sb.WriteString("\\* One control-flow graph per process; node kinds are documented in tools/vmguards/model.go.\n")
 	sb.WriteString("EXTENDS Integers, Sequences, TLC\n\n")
-	sb.WriteString("N(k, a, op, c, t, f, src) == [k |-> k, a |-> a, op |-> op, c |-> c, t |-> t, f |-> f, src |-> src]\n\n")
+	sb.WriteString("N(k, a, op, c, t, f, s, src) == [k |-> k, a |-> a, op |-> op, c |-> c, t |-> t, f |-> f, s |-> s, src |-> src]\n\n")
 	set := func(name string, xs []string) {
 		var q []string
 		for _, s := range xs {
@@ -272,7 +274,7 @@ func emitTLA(o *Output) string {
 			if j == len(p.Nodes)-1 {
 				c = ""
 			}
-			sb.WriteString(fmt.Sprintf("        N(%s, %s, %s, %d, %d, %d, %s)%s\n", tlaStr(n.K), tlaStr(n.A), tlaStr(n.Op), n.C, n.T, n.F, tlaStr(n.Src), c))
+			sb.WriteString(fmt.Sprintf("        N(%s, %s, %s, %d, %d, %d, %d, %s)%s\n", tlaStr(n.K), tlaStr(n.A), tlaStr(n.Op), n.C, n.T, n.F, n.S, tlaStr(n.Src), c))
 		}
 		sb.WriteString("     >>)\n")
 	}
